@@ -389,6 +389,24 @@ func C06() int {
 				}
 			}
 		}
+		// (2b) a log that already went through the tool, appended to / put in front of the raw log
+		// (`cat raw.log redacted.log`): under -w / -f its names ARE pseudonyms issued for the raw
+		// lines. Each line still yields what it yields alone, on either side.
+		if (f.W || f.F != "") && len(outs) > 0 && len(S) <= 600 {
+			var R []c06Line
+			for i, o := range outs {
+				R = append(R, c06Line{raw: o, obj: true, tag: objs[i].tag})
+			}
+			oR, rR := c06Run(s, f, si, R, base)
+			oSR, r1 := c06Run(s, f, si, append(append([]c06Line{}, S...), R...), base)
+			oRS, r2 := c06Run(s, f, si, append(append([]c06Line{}, R...), S...), base)
+			c.Count("feedback_laws_checked", 1)
+			if rR.TimedOut || r1.TimedOut || r2.TimedOut {
+				c.Inconclusive("watchdog")
+			} else if rR.Exit != 0 || r1.Exit != 0 || r2.Exit != 0 || !bytes.Equal(oSR, append(append([]byte{}, B...), oR...)) || !bytes.Equal(oRS, append(append([]byte{}, oR...), B...)) {
+				c.Violation("concat-law|own-output-appended", fmt.Sprintf("with R = redact(S): redact(S++R) != redact(S)++redact(R) or redact(R++S) != redact(R)++redact(S) for a %d-line log (flags %s): lines whose names are pseudonyms issued earlier in the run are treated differently", len(S), f), desc(base))
+			}
+		}
 		// (3) all channel variants byte-identical (+ one repetition of the base)
 		for ci, ch := range chans {
 			if !thorough(c) && si >= 24 && (ci+si)%4 != 0 {
